@@ -54,6 +54,9 @@ def residualFromOde (idxs : List Nat) (vf : List (List (Expr K))) : List (List (
   List.zipWith (fun idx f => (List.range f.length).map fun a =>
     add (var idx a) (neg (f.getD a (const 0)))) idxs vf
 
+/-- the residual program of the ODE `u^(K) = f`: `residual_from_ode` of an unlifted ODE -/
+def odeResidual (Kk : Nat) (f : List (Expr K)) : List (Expr K) := (residualFromOde [Kk] [f]).getD 0 []
+
 /-- number of coefficients read by `residual_from_ode`: `ode.num_tcoeffs_in_args + 1` -/
 def residualFromOdeOrder (Kk : Nat) : Nat := Kk + 1
 
